@@ -99,6 +99,9 @@ class Series:
     def __neg__(self):
         return Series(self.var, self.val, [-x for x in self.c])
 
+    def __pos__(self):
+        return self
+
     def __sub__(self, o):
         o = self._lift(o)
         if o is NotImplemented:
